@@ -528,3 +528,44 @@ Qed.
 
 Lemma data_unchanged inner : conn_returns_inner_result = true -> conn_result inner = inner.
 Proof. intro H. unfold conn_result. rewrite H. reflexivity. Qed.
+
+(* ------------------------------------------------------------------ the listener as a whole
+   Calls of BOTH directions interleaved on the listener a pair of flags creates: the bound holds for the
+   calls of each limited direction, whatever the calls of the other direction do. *)
+Definition limit_of (d : dir) (rl wl : Z) : Z := match d with Tx => rl | Rx => wl end.
+
+Section ListenerBound.
+  Hypothesis Hrx : conn_read_charges_rx = true.
+  Hypothesis Htx : conn_write_charges_tx = true.
+  Hypothesis Hr2t : read_limit_feeds_tx = true.
+  Hypothesis Hw2r : write_limit_feeds_rx = true.
+  Hypothesis Hguard : limit_guard_kind = 0%N.
+  Hypothesis Hfields : listener_fields_straight = true /\ accept_fields_straight = true.
+
+  Lemma lim_of_new_listener d rl wl : 0 < limit_of d rl wl ->
+    lim_of d (new_listener rl wl) = Some (new_limiter (limit_of d rl wl)).
+  Proof.
+    intro H. destruct (mapping Hrx Htx Hr2t Hw2r Hguard Hfields rl wl) as [MT MR].
+    destruct d; cbn [limit_of] in *.
+    - rewrite MR. destruct (0 <? wl) eqn:E; [reflexivity|apply Z.ltb_ge in E; lia].
+    - rewrite MT. destruct (0 <? rl) eqn:E; [reflexivity|apply Z.ltb_ge in E; lia].
+  Qed.
+
+  Theorem listener_bound s e d rl wl es conns maxc :
+    let R := limit_of d rl wl in
+    let des := filter (is_dir d) es in
+    s <= e -> 0 < R -> 0 <= maxc <= burst_of R ->
+    (forall x, In x des -> 0 < e_n x <= maxc /\ e_io x <= e_t x /\ In (e_conn x) conns) ->
+    NoDup conns ->
+    sequential (combine des (rets_of d es (run (new_listener rl wl) es))) ->
+    NS * moved s e des <=
+      burst_of R * NS + R * (e - s + 1 + skew (map e_t des)) + NS * (Z.of_nat (length conns) * maxc).
+  Proof.
+    cbn zeta. intros Hse HR Hm Hev Hnd Hseq.
+    rewrite (independent Hrx Htx d es (new_listener rl wl)), (lim_of_new_listener d rl wl HR) in Hseq.
+    cbn [run_opt] in Hseq.
+    destruct (new_limiter_ok (limit_of d rl wl)) as (Hr & Hb & Hc).
+    apply (window_bound s e (limit_of d rl wl) (burst_of (limit_of d rl wl)) (new_limiter (limit_of d rl wl))
+             (filter (is_dir d) es) conns maxc Hse HR Hr Hb); auto; try (rewrite <- Hb; exact Hc).
+  Qed.
+End ListenerBound.
